@@ -217,7 +217,11 @@ func (f *FibStrategyHashTable) pruneTables(entry *baseFibStrategyEntry) {
 				delete(f.virtTable, virtNameHash)
 			} else {
 				// Update with length of next longest real prefix associated
-				// with this virtual prefix
+				// with this virtual prefix. The maximum is taken over the
+				// remaining names only: starting from the old depth would
+				// keep it forever, and the virtual node would then survive
+				// the removal of its last (shorter) real name.
+				virtEntry.md = 0
 				for _, l := range f.virtTableNames[virtNameHash] {
 					virtEntry.md = max(virtEntry.md, l)
 				}
